@@ -152,6 +152,10 @@ pub struct CVariant {
     pub builder_free_early: bool,
     /// free strings only at the very end
     pub strings_late: bool,
+    /// do not take the last error after a failing setter inside a handler (a C caller may well
+    /// ignore such a failure); the error reported by a later failing write()/end() must still be
+    /// that call's own
+    pub ignore_setter_errors: bool,
 }
 
 struct World {
@@ -161,6 +165,9 @@ struct World {
     fail_at: Option<FailAt>,
     late_strings: Vec<lol_html_str_t>,
     strings_late: bool,
+    ignore_setter_errors: bool,
+    /// last-error texts taken after failing write()/end()/build() calls
+    error_texts: Vec<String>,
     drops: usize,
     streams_created: usize,
     /// contexts for end tag handlers and streaming handlers, kept alive until the end
@@ -380,8 +387,9 @@ unsafe extern "C" fn element_cb(e: *mut c_void, ud: *mut c_void) -> c_int {
             ElOp::SetAttr(n, v) => {
                 let rc = unsafe { lol_html_element_set_attribute(e, n.as_ptr().cast(), n.len(), v.as_ptr().cast(), v.len()) };
                 let w = unsafe { &mut *wp };
-                let err = if rc != 0 { unsafe { last_error(w) } } else { None };
-                if rc != 0 && err.is_none() {
+                let ignore = w.ignore_setter_errors;
+                let err = if rc != 0 && !ignore { unsafe { last_error(w) } } else { None };
+                if rc != 0 && err.is_none() && !ignore {
                     w.codes_problem = Some("set_attribute returned -1 without a last error".into());
                 }
                 w.evs.push(Ev::OpResult { reg: c.reg, op: i, res: if rc == 0 { "ok".into() } else { "err".into() } });
@@ -392,8 +400,9 @@ unsafe extern "C" fn element_cb(e: *mut c_void, ud: *mut c_void) -> c_int {
             ElOp::SetTagName(n) => {
                 let rc = unsafe { lol_html_element_tag_name_set(e, n.as_ptr().cast(), n.len()) };
                 let w = unsafe { &mut *wp };
-                let err = if rc != 0 { unsafe { last_error(w) } } else { None };
-                if rc != 0 && err.is_none() {
+                let ignore = w.ignore_setter_errors;
+                let err = if rc != 0 && !ignore { unsafe { last_error(w) } } else { None };
+                if rc != 0 && err.is_none() && !ignore {
                     w.codes_problem = Some("tag_name_set returned -1 without a last error".into());
                 }
                 w.evs.push(Ev::OpResult { reg: c.reg, op: i, res: if rc == 0 { "ok".into() } else { "err".into() } });
@@ -475,8 +484,9 @@ unsafe extern "C" fn comment_cb(cm: *mut c_void, ud: *mut c_void) -> c_int {
                 CmOp::SetText(s) => {
                     let rc = unsafe { lol_html_comment_text_set(cm, s.as_ptr().cast(), s.len()) };
                     let w = unsafe { &mut *wp };
-                    let err = if rc != 0 { unsafe { last_error(w) } } else { None };
-                    if rc != 0 && err.is_none() {
+                    let ignore = w.ignore_setter_errors;
+                    let err = if rc != 0 && !ignore { unsafe { last_error(w) } } else { None };
+                    if rc != 0 && err.is_none() && !ignore {
                         w.codes_problem = Some("comment_text_set returned -1 without a last error".into());
                     }
                     w.evs.push(Ev::OpResult { reg: c.reg, op: i, res: if rc == 0 { "ok".into() } else { "err".into() } });
@@ -543,6 +553,8 @@ pub struct CRun {
     pub codes_problem: Option<String>,
     /// build() failed: the last-error text
     pub build_error: Option<String>,
+    /// last-error text taken after the failing write()/end(), if any
+    pub error_texts: Vec<String>,
 }
 
 /// Execute `sc` through the C entry points. Handler kinds unsupported by the C API
@@ -556,6 +568,8 @@ pub fn run(sc: &Scenario, v: CVariant) -> Result<CRun, String> {
         fail_at: sc.fail_at,
         late_strings: vec![],
         strings_late: v.strings_late,
+        ignore_setter_errors: v.ignore_setter_errors,
+        error_texts: vec![],
         drops: 0,
         streams_created: 0,
         keep_end: vec![],
@@ -712,6 +726,7 @@ pub fn run(sc: &Scenario, v: CVariant) -> Result<CRun, String> {
                 if e.is_none() {
                     w.codes_problem = Some("write returned -1 without a last error".into());
                 }
+                w.error_texts.push(e.clone().unwrap_or_default());
                 let k2 = classify(&e.unwrap_or_default());
                 w.evs.push(Ev::WriteErr(k2.clone()));
                 outcome = Outcome::Err(k2, k);
@@ -731,6 +746,7 @@ pub fn run(sc: &Scenario, v: CVariant) -> Result<CRun, String> {
                         if e.is_none() {
                             w.codes_problem = Some("end returned -1 without a last error".into());
                         }
+                        w.error_texts.push(e.clone().unwrap_or_default());
                         let k2 = classify(&e.unwrap_or_default());
                         w.evs.push(Ev::EndErr(k2.clone()));
                         outcome = Outcome::Err(k2, writes.len());
@@ -778,13 +794,21 @@ pub fn run(sc: &Scenario, v: CVariant) -> Result<CRun, String> {
                 streams_dropped: 0,
                 codes_problem: None,
                 build_error,
+                error_texts: vec![],
             });
         }
         Ok(Err(e)) => return Err(e),
         Ok(Ok(())) => {}
     }
-    let (sc_n, sd_n, cp) = (w.streams_created, w.drops, w.codes_problem.clone());
-    Ok(CRun { history: mk_history(*w, outcome, in_after, out_after), streams_created: sc_n, streams_dropped: sd_n, codes_problem: cp, build_error })
+    let (sc_n, sd_n, cp, et) = (w.streams_created, w.drops, w.codes_problem.clone(), w.error_texts.clone());
+    // whatever error a handler left behind must not leak into the next scenario
+    {
+        let e = unsafe { lol_html_take_last_error() };
+        if !e.data.is_null() {
+            unsafe { lol_html_str_free(e) };
+        }
+    }
+    Ok(CRun { history: mk_history(*w, outcome, in_after, out_after), streams_created: sc_n, streams_dropped: sd_n, codes_problem: cp, build_error, error_texts: et })
 }
 
 fn mk_history(w: World, outcome: Outcome, in_after: Vec<usize>, out_after: Vec<usize>) -> History {
